@@ -1,15 +1,17 @@
 """C10 -- trace invariant "bits" of spec/Judge.tla evaluated by TLC on every real component of every
 outcome of the pooled arithmetic corpus (all groups of harness/arith.py)."""
-from .. import core, gen, cases, arith
+from .. import machine, core, gen, cases, arith
 from . import common
 
-PROP = "C10"; LEVEL = "exploration"
+PROP = "C10"; LEVEL = "model_checking"
 
 
 def main():
     chk = core.Check(PROP, LEVEL)
-    runner = cases.Runner(core.use_repo())
+    mp = core.use_repo()
+    runner = cases.Runner(mp)
     common.run_models(chk, MODELS)
+    machine.run(chk, mp)
     cs = []
     per = chk.pick(700, 20000)
     for k, (name, grp) in enumerate(sorted(arith.GROUPS.items())):
